@@ -98,6 +98,14 @@ def scenario(c):
                 d = len(N)
                 blk = g.getBlockFromDict({0: 0}, comm, root)
                 blk = g.getBlockFromDict({d - 1: N[d - 1] - 1, 0: range(0, max(1, N[0] // 2))}, comm, root)
+                # gather 'in the direction of a communicator': the root is a rank OF THAT communicator (its numbering
+                # differs from the numbering of the grid's own communicator)
+                for sub in h.communicators:
+                    sroot = (root + 1) % sub.Get_size()
+                    blk = g.getBlockFromDict({0: 0}, sub, sroot)
+                    if sub.Get_rank() == sroot:
+                        out.append(float(len(blk[3])))
+                    blk = g.getBlockForFig([None] * d, sub, sub.Get_size() - 1)
             return [None if x is None else float(x) for x in out]
     elif kind == 'setupsave':
         nranks, given = P[:2]
